@@ -235,6 +235,15 @@ func planC12(tier string, root *simcore.RNG) *plan {
 			j2 := Job{Kind: "script2", Sink: pick(r, []string{"dxf", "svg"}), N: n2, Batches: genPartition(r, n2, 1, "fives"), Coords: "index"}
 			j2.Fault = Fault{Kind: pick(r, []string{"", "nodir", "devfull", "isdir"})}
 			block = append(block, j2)
+			// renders that fail part-way, for every format (a failing render must not
+			// leave anything behind either)
+			block = append(block,
+				Job{Kind: "script3", Sink: "stl", N: 600, Batches: genPartition(r, 600, 1, "fives"), Coords: "index", Fault: Fault{Kind: "devfull"}},
+				Job{Kind: "script3", Sink: "stl", N: 900, Batches: genPartition(r, 900, 1, "small"), Coords: "index", Fault: Fault{Kind: "fsize", Budget: int64(4096 * (1 + r.Intn(8)))}},
+				Job{Kind: "script3", Sink: "3mf", N: 500, Batches: genPartition(r, 500, 1, "fives"), Coords: "index", Fault: Fault{Kind: pick(r, []string{"devfull", "vanish"})}},
+				Job{Kind: "script2", Sink: "dxf", N: 400, Batches: genPartition(r, 400, 1, "fives"), Coords: "index", Fault: Fault{Kind: "devfull"}},
+				Job{Kind: "script2", Sink: "svg", N: 400, Batches: genPartition(r, 400, 1, "fives"), Coords: "index", Fault: Fault{Kind: "devfull"}},
+				Job{Kind: "mco", Sink: "stl", Model: pick(r, model3Names), Cells: 12, Fault: Fault{Kind: "devfull"}})
 			// renders that produce no output at all
 			block = append(block, Job{Kind: "script3", Sink: pick(r, []string{"tri", "stl", "3mf"}), N: 0, Batches: [][]Run{{}}, Coords: "index"})
 			block = append(block, Job{Kind: "script2", Sink: pick(r, []string{"dxf", "svg"}), N: 0, Batches: [][]Run{{}}, Coords: "index"})
